@@ -2,7 +2,7 @@
    function and every set of tables over instruction indices, reading the encoded attribute gives
    back the body, the tables designate the instructions they were built from, exactly the
    referenced instructions carry a label, and every stack-map frame is attached to its instruction. *)
-From FB Require Import C01.Model C01.Theory1 C01.Theory2 C01.Theory3.
+From FB Require Import Base.Sort C01.Model C01.Theory1 C01.Theory2 C01.Theory3.
 Arguments N.add : simpl never.
 Arguments N.mul : simpl never.
 Arguments N.sub : simpl never.
@@ -110,6 +110,7 @@ Definition code_in_of (posf : nat -> N) (t : tables) (bs : bytes) : code_in :=
      ci_lines := map (fun e => (posf (fst e), snd e)) (t_lines t);
      ci_ranges := map (fun e => (posf (fst e), posf (snd e) - posf (fst e))) (t_ranges t);
      ci_frames := frame_deltas posf true 0 (t_frames t);
+     ci_cldc := None;
      ci_points := map posf (t_points t) |}.
 
 (* every instruction index some table or instruction refers to *)
@@ -278,12 +279,29 @@ Proof.
   intros H. f_equal. apply map_ext_in. intros k Hk. apply in_seq in Hk. apply H. lia.
 Qed.
 
-Theorem read_encode ch body bs t :
+(* the frames of a Code attribute as the reader is handed them: StackMapTable deltas, or the offsets
+   of a CLDC StackMap attribute in file order *)
+Definition frames_res (fr : list N) (cl : option (list N)) : res (list N) :=
+  match cl with
+  | None => frame_offsets true 0 fr
+  | Some os => match fr with [] => Ok (isort N.leb os) | _ :: _ => Err end
+  end.
+Definition code_in_with (posf : nat -> N) (t : tables) (bs : bytes) (fr : list N) (cl : option (list N)) : code_in :=
+  {| ci_code := bs;
+     ci_exc := map (fun e => match e with (s, e', h) => (posf s, posf e', posf h) end) (t_exc t);
+     ci_lines := map (fun e => (posf (fst e), snd e)) (t_lines t);
+     ci_ranges := map (fun e => (posf (fst e), posf (snd e) - posf (fst e))) (t_ranges t);
+     ci_frames := fr;
+     ci_cldc := cl;
+     ci_points := map posf (t_points t) |}.
+
+Lemma read_encode_gen ch body bs t fr cl :
   encode ch body = Some bs -> body <> [] -> N.of_nat (length bs) <= 65535 ->
   targets_ok body -> tables_ok (length body) t ->
-  read_code (code_in_of (posf_of (layout ch body)) t bs) = Ok (expected body t).
+  frames_res fr cl = Ok (map (posf_of (layout ch body)) (t_frames t)) ->
+  read_code (code_in_with (posf_of (layout ch body)) t bs fr cl) = Ok (expected body t).
 Proof.
-  intros HE HNE HL HT HTab.
+  intros HE HNE HL HT HTab HFR.
   set (posf := posf_of (layout ch body)). set (n := length body). set (clen := N.of_nat (length bs)).
   assert (Hmono : forall a b, (a < b)%nat -> (b <= n)%nat -> posf a < posf b).
   { intros a b Hab Hb. unfold posf, posf_of, layout. apply layout_from_nth_lt; assumption. }
@@ -297,8 +315,8 @@ Proof.
   assert (Hn0 : (0 < n)%nat) by (unfold n; destruct body; [congruence|cbn; lia]).
   assert (Hc0 : 0 < clen) by (pose proof (Hlt 0%nat Hn0); lia).
   destruct HTab as (Texc & Tlines & Tranges & Tincr & Tframes & Tpoints).
-  unfold read_code, read_code_raw. cbn [code_in_of ci_code ci_exc ci_lines ci_ranges ci_frames ci_points].
-  fold clen.
+  unfold read_code, read_code_raw. cbn [code_in_with ci_code ci_exc ci_lines ci_ranges ci_frames ci_cldc ci_points].
+  fold clen. fold (frames_res fr cl). fold posf in HFR. rewrite HFR.
   destruct (N.eqb_spec clen 0) as [E0|_]; [lia|]. destruct (N.ltb_spec 65535 clen) as [E1|_]; [lia|]. cbn [orb].
   (* pass 1 *)
   unfold clen at 1 2. rewrite (scan_encode ch body bs HE HT HL). fold posf. cbn [bind]. fold clen.
@@ -309,7 +327,6 @@ Proof.
       repeat split; [apply Hlt; exact A|apply Hle; exact B|apply Hlt; exact C]. }
   cbn [bind].
   (* frames *)
-  rewrite (frame_offsets_deltas posf n Hmono ltac:(lia) (t_frames t) 0%nat true 0 Tincr Tframes eq_refl). cbn [bind].
   rewrite fold_create by (intros x Hx; apply in_map_iff in Hx; destruct Hx as (f & <- & Hf); apply Hlt; apply Tframes; exact Hf).
   cbn [bind].
   (* line numbers *)
@@ -368,7 +385,7 @@ Proof.
     - intros (j & Ej & Hj). rewrite <- (Hinj j k (Hrefs j Hj) Hk Ej). exact Hj.
     - intros H. exists k. split; [reflexivity|exact H]. }
   unfold sem, expected.
-  cbn [cr_insns cr_labels cr_clen cr_frames code_in_of ci_exc ci_lines ci_ranges ci_points].
+  cbn [cr_insns cr_labels cr_clen cr_frames code_in_with ci_exc ci_lines ci_ranges ci_points].
   fold n. f_equal; fold clen.
   - (* instructions *)
     assert (S : starts_from ch 0 0 body = map posf (seq 0 n)) by (rewrite starts_are_posf; reflexivity).
@@ -393,6 +410,68 @@ Proof.
     replace (posf (fst e) + (posf (snd e) - posf (fst e))) with (posf (snd e)) by lia.
     rewrite !Hix by lia. reflexivity.
   - rewrite map_map. apply map_ext_in. intros p Hin. apply Hix. specialize (Tpoints p Hin). lia.
+Qed.
+
+Theorem read_encode ch body bs t :
+  encode ch body = Some bs -> body <> [] -> N.of_nat (length bs) <= 65535 ->
+  targets_ok body -> tables_ok (length body) t ->
+  read_code (code_in_of (posf_of (layout ch body)) t bs) = Ok (expected body t).
+Proof.
+  intros HE HNE HL HT HTab.
+  change (code_in_of (posf_of (layout ch body)) t bs)
+    with (code_in_with (posf_of (layout ch body)) t bs (frame_deltas (posf_of (layout ch body)) true 0 (t_frames t)) None).
+  apply read_encode_gen; try assumption.
+  set (posf := posf_of (layout ch body)). set (n := length body).
+  assert (Hmono : forall a b, (a < b)%nat -> (b <= n)%nat -> posf a < posf b).
+  { intros a b Hab Hb. unfold posf, posf_of, layout. apply layout_from_nth_lt; assumption. }
+  assert (Hend : posf n = N.of_nat (length bs)) by (apply (layout_end _ _ _ HE)).
+  destruct HTab as (_ & _ & _ & Tincr & Tframes & _).
+  unfold frames_res.
+  apply (frame_offsets_deltas posf n Hmono ltac:(lia) (t_frames t) 0%nat true 0 Tincr Tframes eq_refl).
+Qed.
+
+(* ---------------------------------------------------------------------------------------------- *)
+(* the CLDC StackMap attribute: absolute offsets, in ANY order.  The reader queues the frames in the
+   order of their offsets (fix 15936f8: it used to order them by label id, i.e. by the order in
+   which the labels had been created), so each frame reaches the instruction at its offset. *)
+Definition code_in_cldc (posf : nat -> N) (t : tables) (order : list nat) (bs : bytes) : code_in :=
+  code_in_with posf t bs [] (Some (map posf order)).
+
+Lemma N_leb_total : total_on N.leb (fun _ : N => True).
+Proof. intros a b _ _. destruct (N.leb_spec a b) as [H|H]; [left; reflexivity|right; apply N.leb_le; lia]. Qed.
+Lemma N_leb_trans : trans_on N.leb (fun _ : N => True).
+Proof. intros a b c _ _ _ H1 H2. apply N.leb_le in H1, H2. apply N.leb_le. lia. Qed.
+Lemma N_leb_antisym : antisym_on N.leb (fun _ : N => True).
+Proof. intros a b _ _ H1 H2. apply N.leb_le in H1, H2. lia. Qed.
+
+Lemma sorted_map_posf posf n :
+  (forall a b, (a < b)%nat -> (b <= n)%nat -> posf a < posf b) ->
+  forall fs lo, incr_from lo fs -> (forall f, In f fs -> (f < n)%nat) -> Sorted (lebP N.leb) (map posf fs).
+Proof.
+  intros Hmono. induction fs as [|f fs IH]; intros lo Hi Hf; [constructor|].
+  cbn [map]. destruct Hi as [Hlo Hi]. constructor.
+  - apply (IH (S f) Hi). intros x Hx. apply Hf. right. exact Hx.
+  - destruct fs as [|g fs]; [constructor|]. cbn [map]. constructor. unfold lebP. apply N.leb_le.
+    destruct Hi as [Hg _]. assert (posf f < posf g); [|lia].
+    apply Hmono; [lia|]. assert ((g < n)%nat) by (apply Hf; right; left; reflexivity). lia.
+Qed.
+
+Theorem read_encode_cldc ch body bs t order :
+  encode ch body = Some bs -> body <> [] -> N.of_nat (length bs) <= 65535 ->
+  targets_ok body -> tables_ok (length body) t -> Permutation order (t_frames t) ->
+  read_code (code_in_cldc (posf_of (layout ch body)) t order bs) = Ok (expected body t).
+Proof.
+  intros HE HNE HL HT HTab HP. unfold code_in_cldc. apply read_encode_gen; try assumption.
+  set (posf := posf_of (layout ch body)). set (n := length body).
+  assert (Hmono : forall a b, (a < b)%nat -> (b <= n)%nat -> posf a < posf b).
+  { intros a b Hab Hb. unfold posf, posf_of, layout. apply layout_from_nth_lt; assumption. }
+  destruct HTab as (_ & _ & _ & Tincr & Tframes & _).
+  unfold frames_res. f_equal.
+  rewrite (sorted_perm_unique N.leb (fun _ => True) (map posf order) (map posf (t_frames t))
+             N_leb_total N_leb_trans N_leb_antisym).
+  - apply isort_id_sorted. apply (sorted_map_posf posf n Hmono (t_frames t) 0%nat Tincr Tframes).
+  - apply Forall_forall. intros; exact I.
+  - apply Permutation_map. exact HP.
 Qed.
 
 (* ---------------------------------------------------------------------------------------------- *)
